@@ -20,23 +20,24 @@ def missing (req : Req) (all : Bool) (managed : List String) : List String :=
 /-- Observable history of a case (most recent first): the registered requests with their instants. -/
 structure Hist where
   now : Nat := 0
-  reqs : List (Nat × Req) := []
+  reqs : List (Nat × Req) := []      -- the requests that went through
+  last : Option Nat := none          -- instant of the last update ATTEMPT (also a refused one)
 deriving Repr
 
 def Hist.settled (h : Hist) : Bool :=
-  match h.reqs with
-  | [] => false
-  | (t, _) :: _ => decide (t + ttl ≤ h.now)
+  match h.last with
+  | none => false
+  | some t => decide (t + ttl ≤ h.now)
 
 /-- F14g class: everything that is required and missing was ALSO part of an earlier request — it was
     registered again by the request in force and can only have been removed by the un-manage a reload scheduled
     for its previous request; the code schedules EVERY previous entry (pointer identity), also those that are
     still in the new request (and a stale job of an earlier reload removes what a later one registered again). -/
-def classF14g (h : Hist) (all : Bool) (managed : List String) : Bool :=
+def classF14g (h : Hist) (force : Req) (all : Bool) (managed : List String) : Bool :=
   match h.reqs with
   | [] => false
-  | (_, req) :: earlier =>
-    (missing req all managed).all fun e =>
+  | _ :: earlier =>
+    (missing force all managed).all fun e =>
       earlier.any fun r => if e == "<manage_all>" then r.2.ma else r.2.eps.contains e
 
 inductive Verdict where
@@ -52,16 +53,15 @@ def openFinding : Mode → Option String
   | .byString => some "F14h"
   | .stamped => none
 
-/-- Verdict of one `managed?` observation (`m` = the state of the code the slice currently describes). -/
-def observe (m : Mode) (h : Hist) (all : Bool) (managed : List String) : Verdict :=
-  match h.reqs with
-  | [] => .ok
-  | (_, req) :: _ =>
-    if !h.settled then .ok
-    else if requiredOK req all managed then .ok
-    else match openFinding m with
-      | some id => if classF14g h all managed then .known id
-                   else .violated "required-expression-not-managed-after-first-load"
-      | none => .violated "required-expression-not-managed-after-reload-settled"
+/-- Verdict of one `managed?` observation (`m` = the state of the code the slice currently describes; `force` =
+    the request of the configuration IN FORCE in the engine at that instant, which after a refused update is
+    still the old one). -/
+def observe (m : Mode) (h : Hist) (force : Req) (all : Bool) (managed : List String) : Verdict :=
+  if !h.settled then .ok
+  else if requiredOK force all managed then .ok
+  else match openFinding m with
+    | some id => if classF14g h force all managed then .known id
+                 else .violated "required-expression-not-managed-after-first-load"
+    | none => .violated "in-force-configuration-not-managed-after-update-settled"
 
 end LunarVerif.C14.Reload
